@@ -37,6 +37,10 @@ def _lincoef(rng, maxorder=4, scale=1.0):
         c[3] = _u(rng, -0.01, 0.01) * scale
     if m >= 4:
         c[4] = -_u(rng, 1e-5, 1e-3) * scale
+    if m >= 5:
+        c[5] = _u(rng, -1e-5, 1e-5) * scale
+    if m >= 6:
+        c[6] = _u(rng, 1e-9, 1e-7) * scale
     return c
 
 
@@ -133,7 +137,7 @@ def g_sh(rng, D, v):
 
 
 def g_genlin(rng, D, v):
-    return {"linear_coefficients": _lincoef(rng)}
+    return {"linear_coefficients": _lincoef(rng, maxorder=4 if v == 0 else 6)}
 
 
 def g_normlin(rng, D, v):
@@ -232,7 +236,7 @@ SPECS = {
     "reaction.FisherKPP": dict(dims=(1, 2, 3), sig="phys", gen=g_fisher, ch=lambda D, kw: 1, linear=False, nvar=1),
     "reaction.GrayScott": dict(dims=(1, 2, 3), sig="phys", gen=g_gs, ch=lambda D, kw: 2, linear=False, nvar=1),
     "reaction.SwiftHohenberg": dict(dims=(1, 2, 3), sig="phys", gen=g_sh, ch=lambda D, kw: 1, linear=False, nvar=1),
-    "generic.GeneralLinearStepper": dict(dims=(1, 2, 3), sig="phys", gen=g_genlin, ch=lambda D, kw: 1, linear=True, nvar=1),
+    "generic.GeneralLinearStepper": dict(dims=(1, 2, 3), sig="phys", gen=g_genlin, ch=lambda D, kw: 1, linear=True, nvar=2),
     "generic.NormalizedLinearStepper": dict(dims=(1, 2, 3), sig="norm", gen=g_normlin, ch=lambda D, kw: 1, linear=True, nvar=1),
     "generic.DifficultyLinearStepper": dict(dims=(1, 2, 3), sig="norm", gen=g_difflin, ch=lambda D, kw: 1, linear=True, nvar=1),
     "generic.DifficultyLinearStepperSimple": dict(dims=(1, 2, 3), sig="norm", gen=g_difflinsimple, ch=lambda D, kw: 1, linear=True, nvar=1),
